@@ -123,6 +123,59 @@ def directed_rekey_dups(ctx, res):
                     res.fail(key, what, {'seed': seed, 'conf': variant, 'faults': None, 'ops': S.ser_ops(h.ops[:at + 1]), 'oracle': key})
 
 
+def successor_gone_first(ctx, res):
+    """the successor of a rekeyed IKE_SA ends before the old IKE_SA does (its delete exchange is lost, the new IKE_SA is deleted), and
+    the old IKE_SA then sees traffic again: a late copy of the rekey request, a liveness check — the table must list neither a
+    deleted IKE_SA nor anything twice, and the status query must agree with it"""
+    for rekeyer in 'AB':
+        for late in ('dup-rekey-request', 'dup-rekey-request+status', 'tick'):
+            conf = {'dpd': 5000, 'ike_lifetime': 100 if rekeyer == 'A' else 5000, 'ike_lifetime_b': 100 if rekeyer == 'B' else 5000}
+            seed = ctx.rng.randrange(1 << 30)
+            with CP.History(seed, trace=ctx.driver is not None, deep=True, **conf) as h:
+                h.oracles = list(ORACLES)
+                w = h.w
+                if not h.establish('A'):
+                    continue
+                h.settle()
+                h.op('tick', 106)
+                first = w.net[0].id if w.net else None       # the rekey request
+                n = 0
+                while w.net and n < 2:                        # request and response; the DELETE of the old IKE_SA is lost
+                    h.op('deliver', w.net[0].id)
+                    n += 1
+                for dg in list(w.net):
+                    h.op('drop', dg.id)
+                ini = w.A if rekeyer == 'A' else w.B
+                new = [x for x in ini.sas() if int(x.state) == 10]
+                if not new or first is None:
+                    continue
+                new[0].delete_ike_sa_at = w.now - 1           # the new IKE_SA reaches its hard lifetime: delete exchange on it
+                h.op('tick', 0)
+                for _ in range(6):
+                    for dg in list(w.net):
+                        try:
+                            hd = M.Message.parse(dg.data, header_only=True)
+                        except Exception:
+                            continue
+                        if bytes(new[0].my_spi) in (hd.spi_i, hd.spi_r):
+                            h.op('deliver', dg.id)
+                if late.startswith('dup'):
+                    h.op('dup', first)                        # a late copy of the rekey request reaches the REKEYED IKE_SA
+                    if late.endswith('status'):
+                        h.op('status', 'B' if rekeyer == 'A' else 'A')
+                else:
+                    h.op('tick', 1)
+                h.op('tick', 1)
+                res.evaluations += len(h.ops)
+                res.nontrivial.add(('successor-gone-first', rekeyer, late))
+                res.count('directed:successor-gone-first')
+                for key, what, at in h.findings[:2]:
+                    res.fail(key, what, {'seed': seed, 'conf': conf, 'faults': None, 'ops': S.ser_ops(h.ops[:at + 1]), 'oracle': key})
+                if h.tr is not None:
+                    h.tr.close()
+                    S.deep_check(ctx, res, h.tr)
+
+
 def run(ctx):
     res = Result()
     res.rule = ('seeded histories with short IKE_SA lifetimes (initial, rekeyed and simultaneously rekeyed IKE_SAs, INVALID_KE retries, '
@@ -137,6 +190,7 @@ def run(ctx):
     S.campaign(ctx, res, ORACLES, ctx.scale(80, 1000), ctx.scale(45, 90), variants=VARIANTS, dup=0.3, prepare=prepare,
                per_history=spi_games)
     directed_rekey_dups(ctx, res)
+    successor_gone_first(ctx, res)
     # an authentic peer that says unusual things (failing answers to an IKE_SA rekey, DELETE games): the table stays exact and
     # everything the kernel holds has an owner in it
     import rogue
